@@ -93,6 +93,25 @@ SEEDS4 = {
    "an Error event that is not the last event", ""),
 }
 
+SEEDS5 = {
+ "C02-r5-collision-returns-error-without-persisting-count": ("C02", "createControllerRevision returns an error on a name collision after bumping the local collision count instead of retrying",
+   "a revision name collision: the bumped count is never persisted, every reconcile fails the same way", ""),
+ "C06-r5-pod-name-regex-anchored-to-dns-label": ("C06", "the pod-name regular expression anchored to a DNS label",
+   "a set name with a dot: the ordinal of every pod parses as -1", "needed the dotted set name in C06/identity-with-template-fields"),
+ "C09-r5-wrapped-notfound-swallowed-on-adoption": ("C09", "two error wrappers in the vendored ref manager switched to %w, so a NotFound from the can-adopt re-read looks like 'the pod is gone' and is ignored",
+   "an orphan pod waiting for adoption and a NotFound on the uncached read of the set", "needed the new run C09/failure-with-orphan-pods"),
+ "C12-r5-condemned-pods-not-counted": ("C12", "condemned pods are neither counted in currentReplicas/updatedReplicas nor un-counted when deleted",
+   "a live condemned pod at a fixed point (OrderedReady scale-in blocked by an unhealthy pod): needs two pods", "quick has one pod in the C12 run; two pods are in the thorough tier"),
+ "C13-r5-no-trim-up-to-limit-plus-two": ("C13", "UpdateStatefulSet skips truncateHistory while len(revisions) <= limit+2",
+   "steady state with limit+1 unused revisions", ""),
+ "C16-r5-lister-precheck-skips-negative-selectors": ("C16", "GetPodStatefulSets skips a set unless the pod carries every label key its selector mentions (generated lister expansion)",
+   "a NotIn / DoesNotExist selector and an orphan pod lacking the key", "needed the new run C16/events-negative-selector"),
+ "C17-r5-preexisting-spec-copied-partially": ("C17", "Upgrade copies only replicas, template and updateStrategy onto a pre-existing Advanced object",
+   "a pre-existing Advanced StatefulSet that differs in serviceName, podManagementPolicy or revisionHistoryLimit", "needed the 'stale pre-existing object' dimension"),
+ "C19-r5-managed-fields-dropped-in-conversion": ("C19", "metadata.managedFields cleared inside FromBuiltinStatefulSet",
+   "an object with managedFields (every object read from a real API server)", "needed the managedFields dimension in C19/round-trip-area0"),
+}
+
 def main():
     log = []
     for f in sys.argv[1:]:
@@ -104,7 +123,7 @@ def main():
             continue
         name, ck, dm, ex, verdict, _, tier, rest = m.groups()
         res.setdefault(name, {})[f"{ck} {tier}"] = (verdict, int(dm), int(ex), rest.split(' validated')[0])
-    both = [(k, v, 3) for k, v in SEEDS.items()] + [(k, v, 4) for k, v in SEEDS4.items()]
+    both = [(k, v, 3) for k, v in SEEDS.items()] + [(k, v, 4) for k, v in SEEDS4.items()] + [(k, v, 5) for k, v in SEEDS5.items()]
     for name, (prop, change, needs, note), rnd in both:
         d = os.path.join('/verif/seeded', name)
         if name not in res:
